@@ -21,7 +21,7 @@ META = {
     "shards": {"quick": 8, "thorough": 16},
     "soft_s": {"quick": 60, "thorough": 900},
     "exhaustive": {"quick": True, "thorough": True},
-    "require": ["sort_calls", "find_cycles_calls", "cyclic_graphs", "acyclic_graphs", "contract_evals"],
+    "require": ["sort_calls", "find_cycles_calls", "cyclic_graphs", "acyclic_graphs", "contract_evals", "value_node_graphs", "ddl_sort_cases_with_explicit_dependencies"],
     "assumptions": ["reference reachability oracle is correct (12 lines, Floyd-Warshall)"],
 }
 
@@ -138,7 +138,125 @@ def judge(ctx, topo, exc, n, edges, order, variant, tuple_rng=None, foreign=0):
                     )
     if outs and any(o != outs[0] for o in outs):
         ctx.violation("sort-order-depends-on-hash-or-tuple-order", f"edges={edges} order={order} outputs={outs}", desc)
+
+    # ---- items compared by VALUE: every occurrence of a node in the item list and in the
+    # tuples is a fresh, equal-but-not-identical object (runtime-built strings, tuples,
+    # large ints), as formatted / parsed / reflected names are
+    if not foreign and (ctx.evaluations % 3 == 0 or n <= 3):
+        kind = ("str", "tuple", "bigint")[(len(edges) + n + ctx.evaluations) % 3]
+
+        def mk(i):
+            if kind == "str":
+                return "node%d" % i
+            if kind == "tuple":
+                return ("n", i, str(i))
+            return 10 ** 12 + i * 1000 + len(str(i)) - len(str(i))
+
+        def back(v):
+            if kind == "str":
+                return int(v[4:])
+            if kind == "tuple":
+                return v[1]
+            return (v - 10 ** 12) // 1000
+
+        items = [mk(i) for i in order]
+        tv = [(mk(a), mk(b)) for a, b in edges]
+        ctx.count("value_node_graphs")
+        try:
+            res = list(topo.sort(tv, items))
+            raised = None
+        except exc.CircularDependencyError as e:
+            res, raised = None, e
+        if cyclic != (raised is not None):
+            ctx.violation("sort-raises-iff-cyclic:value-nodes", f"cyclic={cyclic} raised={raised is not None} kind={kind} edges={edges}", desc)
+        elif res is not None:
+            names = [back(v) for v in res]
+            pos = {nm: k for k, nm in enumerate(names)}
+            if sorted(names) != sorted(order):
+                ctx.violation("sort-not-permutation:value-nodes", f"items={order} out={names} kind={kind}", desc)
+            elif [(a, b) for a, b in inner if pos[a] > pos[b]]:
+                ctx.violation("sort-dependency-after-dependent:value-nodes", f"out={names} edges={edges} kind={kind}", desc)
+        else:
+            got = {back(v) for v in raised.cycles}
+            if got != on_cycle:
+                ctx.violation("error-cycles-not-exact:value-nodes", f"kind={kind} edges={edges} reported={sorted(got)} expected={sorted(on_cycle)}", desc)
+        got = {back(v) for v in topo.find_cycles([(mk(a), mk(b)) for a, b in edges], [mk(i) for i in order])}
+        if got != on_cycle:
+            ctx.violation("find-cycles-not-exact:value-nodes", f"kind={kind} edges={edges} reported={sorted(got)} expected={sorted(on_cycle)}", desc)
+
     ctx.case({"n": n, "e": sorted(set(edges))}, nontrivial=len(set(edges)) >= 2)
+
+def ddl_sort_case(ctx, sa, exc, rng):
+    """sort_tables_and_constraints / sort_tables / MetaData.sorted_tables over random table
+    graphs with FOREIGN KEY edges (removable: they may be set aside when they form a cycle)
+    and EXPLICIT edges (Table.add_is_dependent_on, extra_dependencies: never removable),
+    some of them parallel to an FK of the same pair.  Oracle: every explicit dependency
+    precedes its dependent; every FK dependency that was not set aside does too; a cycle
+    among explicit dependencies raises CircularDependencyError."""
+    from sqlalchemy.sql import ddl
+
+    n = rng.randint(2, 5)
+    md = sa.MetaData()
+    fks, explicit, extra = set(), set(), set()
+    for a in range(n):
+        for b in range(n):
+            if a != b and rng.random() < 0.3:
+                fks.add((a, b))  # b has an FK to a: a before b
+    for (a, b) in list(fks):
+        if rng.random() < 0.35:
+            (explicit if rng.random() < 0.6 else extra).add((a, b))  # parallel explicit edge
+    for a in range(n):
+        for b in range(n):
+            if a != b and rng.random() < 0.08:
+                (explicit if rng.random() < 0.5 else extra).add((a, b))
+    tabs = []
+    for i in range(n):
+        cols = [sa.Column("id", sa.Integer, primary_key=True)]
+        for (a, b) in sorted(fks):
+            if b == i:
+                cols.append(sa.Column(f"r{a}", sa.Integer, sa.ForeignKey(f"t{a}.id", name=f"fk_{b}_{a}")))
+        tabs.append(sa.Table(f"t{i}", md, *cols))
+    for (a, b) in explicit:
+        tabs[b].add_is_dependent_on(tabs[a])
+    order = list(range(n))
+    rng.shuffle(order)
+    hard = explicit | extra
+    reach = closure(n, sorted(hard))
+    hard_cyclic = any(reach[i][i] for i in range(n))
+    desc = {"n": n, "fks": sorted(fks), "explicit": sorted(explicit), "extra": sorted(extra), "order": order}
+    ctx.count("ddl_sort_cases")
+    if hard:
+        ctx.count("ddl_sort_cases_with_explicit_dependencies")
+    import warnings
+
+    with warnings.catch_warnings():
+        warnings.simplefilter("ignore")
+        try:
+            res = ddl.sort_tables_and_constraints(
+                [tabs[i] for i in order], extra_dependencies=[(tabs[a], tabs[b]) for a, b in extra]
+            )
+            raised = False
+        except exc.CircularDependencyError:
+            res, raised = None, True
+    ctx.case({"ddl": desc}, nontrivial=bool(hard) and bool(fks))
+    if hard_cyclic != raised:
+        ctx.violation("ddl-sort-explicit-cycle-raises-iff", f"explicit cycle={hard_cyclic} raised={raised} :: {desc}", desc)
+        return
+    if res is None:
+        return
+    names = [int(t.name[1:]) for t, _ in res if t is not None]
+    if sorted(names) != list(range(n)):
+        ctx.violation("ddl-sort-not-permutation", f"out={names} :: {desc}", desc)
+        return
+    pos = {nm: k for k, nm in enumerate(names)}
+    bad = [(a, b) for a, b in hard if pos[a] > pos[b]]
+    if bad:
+        ctx.violation("ddl-sort-explicit-dependency-after-dependent", f"out={names} violates {bad} :: {desc}", desc)
+        return
+    set_aside = {(int(fkc.referred_table.name[1:]), int(fkc.parent.name[1:])) for fkc in res[-1][1]}
+    bad = [(a, b) for a, b in fks if (a, b) not in set_aside and pos[a] > pos[b]]
+    if bad:
+        ctx.violation("ddl-sort-inline-fk-dependency-after-dependent", f"out={names} violates {bad} set_aside={sorted(set_aside)} :: {desc}", desc)
 
 
 def enum_graphs(n, loops=True):
@@ -232,6 +350,12 @@ def live_contracts(ctx, topo, exc):
                 failures.append(("dependency-after-dependent", repr(a), repr(b)))
                 return False
         return True
+
+    # Part A4: the DDL-level sort over FK + explicit dependencies
+    for k in range(ctx.pick({"quick": 300, "thorough": 6000})):
+        if k >= 40 and not ctx.budget_ok(0.9):
+            break
+        ddl_sort_case(ctx, sa, exc, ctx.rng)
 
     orig_sort, orig_subsets = topo.sort, topo.sort_as_subsets
 
